@@ -3,6 +3,7 @@
   signer's key (under `SecpGroupLaw`, see Proofs/C03Group.lean).
 -/
 import GocoinV.Proofs.C03Group
+import GocoinV.Proofs.C03Der
 namespace GocoinV.Proofs.C03
 open GocoinV GocoinV.Secp GocoinV.Model GocoinV.Model.Sig
 
@@ -175,5 +176,81 @@ theorem recover_sign_core (d k r s recid : Nat) (hb : Bytes)
       (by rw [hs, Nat.cast_sub (Nat.le_of_lt hlt), ZMod.natCast_self, zero_sub, neg_one_mul])
       (by rw [Nat.cast_sub (Nat.le_of_lt hkn), ZMod.natCast_self, zero_sub, neg_one_mul])
     rw [nsmul_G_congr _ _ hsc, ← mul_G]
+
+
+/-! ### at the level of bytes: `btc.EcdsaVerify(pubkey, sig.Bytes(), hash)` -/
+
+/-- G has order exactly n: d·G ≠ ∞ for 0 < d < n -/
+theorem mul_G_ne_none (d : Nat) (h0 : 0 < d) (hd : d < n) : mul d G ≠ none := by
+  intro h
+  have hz : d • Gc = 0 := Subtype.ext (by rw [← mul_G]; exact h)
+  have hG : Gc ≠ 0 := by
+    intro e
+    have := congrArg Subtype.val e
+    simp [Gc, G, val_zero] at this
+  have hord : addOrderOf Gc = n := addOrderOf_eq_prime order_G hG
+  have := addOrderOf_dvd_iff_nsmul_eq_zero.mpr hz
+  rw [hord] at this
+  exact absurd (Nat.le_of_dvd h0 this) (by omega)
+
+omit L in
+/-- `XY.ParsePubkey` reads back the compressed serialisation of a curve point -/
+theorem parsePubkey_ser33 (x y : Nat) (h : onCurve (some (x, y)) = true) :
+    Sig.parsePubkey true (ser33 (some (x, y))) = some (x, y) := by
+  obtain ⟨hx, hy, _⟩ := (onCurve_iff x y).mp h
+  have hp256 : p < 256 ^ 32 := by decide
+  have hbv : beVal (beBytes 32 x) = x := beVal_beBytes 32 x (by omega)
+  have hv : isValid x y = true := by rw [isValid_eq_onCurve x y hx hy]; exact h
+  unfold ser33 Sig.parsePubkey
+  have hlen : ((if y % 2 = 0 then (2 : UInt8) else 3) :: beBytes 32 x).length = 33 := by
+    simp [beBytes]
+  simp only [hlen, hbv, true_and]
+  have hnx : ¬ x ≥ p := by omega
+  rcases Nat.mod_two_eq_zero_or_one y with e | e
+  · have hy' : setXO x ((2 : UInt8) == 3) = y := by
+      rw [setXO_onCurve x y h]; simp [e]
+    simp only [e, ↓reduceIte, hy', hnx, hv, true_or]
+  · have hy' : setXO x ((3 : UInt8) == 3) = y := by
+      rw [setXO_onCurve x y h]; simp [e]
+    simp only [e, Nat.one_ne_zero, ↓reduceIte, hy', hnx, hv, or_true]
+
+/-- What the signer hands out is accepted by `btc.EcdsaVerify`: for a secret key 0 < d < n, the
+    DER bytes of an output of `Sign` verify against the compressed public key bytes of d·G. -/
+theorem own_signature_accepted (d k r s recid : Nat) (msg : Bytes) (hd0 : 0 < d) (hdn : d < n)
+    (h : sign d (beVal msg) k = some (r, s, recid)) (hr : r ≠ 0) :
+    ∃ der, sigBytes r s = some der ∧ Spec.Ecdsa.isStrictDER der = true ∧
+      Sig.ecdsaVerify true (ser33 (mul d G)) der msg = true := by
+  have hlow := sign_low d (beVal msg) k r s recid h
+  have hn256 : n < 2 ^ 256 := by decide
+  obtain ⟨der, hder, hstrict, hdec⟩ :=
+    sigBytes_canonical r s (Nat.pos_of_ne_zero hr) (by omega) hlow.1
+      (by have : halfOrder < n := by decide
+          omega)
+  refine ⟨der, hder, hstrict, ?_⟩
+  have hv := sign_verify_core d (beVal msg) k r s recid h hr
+  have hon : onCurve (mul d G) = true := by rw [mul_G]; exact (d • Gc).2
+  cases hQ : mul d G with
+  | none => exact absurd hQ (mul_G_ne_none d hd0 hdn)
+  | some q =>
+    obtain ⟨x, y⟩ := q
+    rw [hQ] at hv hon
+    have hpb := parseBytes_eq der
+    rw [hdec] at hpb
+    cases hp : Sig.parseBytes der with
+    | none => rw [hp] at hpb; simp at hpb
+    | some t =>
+      obtain ⟨r', s', c⟩ := t
+      rw [hp] at hpb
+      simp only [Option.map_some, Option.some.injEq, Prod.mk.injEq] at hpb
+      obtain ⟨rfl, rfl⟩ := hpb
+      unfold Sig.ecdsaVerify Sig.ecdsaVerifyCode
+      rw [parsePubkey_ser33 x y hon, hp]
+      have hl1 : ¬ ((ser33 (some (x, y))).length = 0 ∨ der.length = 0) := by
+        have : der ≠ [] := by
+          intro e; rw [e] at hp; simp [Sig.parseBytes] at hp
+        simp [ser33, this]
+      rw [if_neg hl1]
+      simp only [hv, ↓reduceIte]
+      rfl
 
 end GocoinV.Proofs.C03
